@@ -94,6 +94,7 @@ func (e *c09Env) runWS(c c09Case) *Violation {
 	nWant := 0
 	wantRuns := map[string]int{}
 	lenient := false
+	lenientIDs := map[string]int{}
 	idKey := func(s *string, f *float64) string {
 		if s != nil {
 			return "s:" + *s
@@ -108,6 +109,22 @@ func (e *c09Env) runWS(c c09Case) *Violation {
 		}
 		if !modelled {
 			lenient = true // dropped or undefined: statement silent; the server still must not emit malformed frames
+			// such a frame may still be answered (e.g. duplicate member names): remember its id so that the answer
+			// is not counted against a modelled frame that happens to use the same id
+			var loose map[string]json.RawMessage
+			if json.Unmarshal([]byte(f), &loose) == nil {
+				for key, raw := range loose {
+					if strings.EqualFold(key, "id") {
+						var sv string
+						var fv float64
+						if json.Unmarshal(raw, &sv) == nil {
+							lenientIDs["s:"+sv]++
+						} else if json.Unmarshal(raw, &fv) == nil {
+							lenientIDs[fmt.Sprintf("n:%v", fv)]++
+						}
+					}
+				}
+			}
 		} else {
 			el := bc.elems[0]
 			x := expectElem(el)
@@ -210,10 +227,10 @@ func (e *c09Env) runWS(c c09Case) *Violation {
 		}
 	}
 	for k, ws := range wantByID {
-		if len(got[k]) != len(ws) {
+		if len(got[k]) < len(ws) || len(got[k]) > len(ws)+lenientIDs[k] {
 			return violf("ws-response-count", "id %s: %d request frames, %d response frames", k, len(ws), len(got[k]))
 		}
-		if len(ws) == 1 {
+		if len(ws) == 1 && len(got[k]) == 1 {
 			if v := checkRespAgainst(ws[0].e, ws[0].x, got[k][0]); v != nil {
 				return v
 			}
